@@ -201,7 +201,33 @@ OK_TYPES = (str, int, float, bool, complex, bytes)
 Val = Union[int, bool, str, float, bytes]
 # concrete stand-ins for the value kinds that cannot be sent as a scalar literal (their contents would be realised by the
 # error-message formatting of the refusal path, so they are not symbolic); 1j is a legal scalar
-ALT = [None, [1, "a"], (1, 2), {"a": 1}, 1j, {1}, object()]
+import enum  # noqa: E402
+import math  # noqa: E402
+
+
+class Color(enum.IntEnum):
+    red = 1
+
+
+class Tag(str):
+    def __repr__(self):
+        return "<Tag %s>" % str.__str__(self)
+
+
+# ... a module object, an IntEnum member and an instance of a str subclass are no scalars a backend could read either
+ALT = [None, [1, "a"], (1, 2), {"a": 1}, 1j, {1}, object(), math, Color.red, Tag("loose")]
+
+
+def is_ok(v):
+    "a transportable scalar: a value of exactly one of the scalar types (symbolic stand-ins of CrossHair count by the type they stand for)"
+    if type(v) in OK_TYPES:
+        return True
+    try:
+        from crosshair.core import python_type
+        from crosshair.util import CrossHairValue
+        return isinstance(v, CrossHairValue) and python_type(v) in OK_TYPES
+    except ImportError:
+        return False
 
 
 def consts(n):
@@ -211,13 +237,13 @@ def consts(n):
 def c13b(code: int, alt: int, v: Val) -> str:
     """
     pre: LO <= code < HI and 0 <= code < 7
-    pre: 0 <= alt <= 7
+    pre: 0 <= alt <= 10
     pre: not isinstance(v, str) or len(v) <= 3
     pre: not isinstance(v, bytes) or len(v) <= 3
     post: (_ == '') != TWIN
     """
     code = pick(code, max(LO, 0), min(HI, 7))
-    alt = pick(alt, 0, 8)
+    alt = pick(alt, 0, 11)
     if alt > 0:
         v = ALT[alt - 1]
     tick()
@@ -252,7 +278,7 @@ def c13b(code: int, alt: int, v: Val) -> str:
             emitted = _rewrite_captured_vars(global_getclosurevars(f)).visit(ast.parse("lambda e: e.g(G_CAP)").body[0].value)
             check_ast(emitted)
     except ValueError as e:
-        if isinstance(v, OK_TYPES):
+        if is_ok(v):
             return "transportable value refused: %s" % e
         return ""
     except Exception as e:
@@ -263,7 +289,7 @@ def c13b(code: int, alt: int, v: Val) -> str:
         c13_fn.__defaults__ = (3,)
     cs = consts(emitted)
     for c in cs:
-        if not isinstance(c.value, OK_TYPES):
+        if not is_ok(c.value):
             return "non-transportable constant in emitted lambda: " + type(c.value).__name__
     mine = [c for c in cs if c.value is v]
     if len(mine) < want:
